@@ -39,7 +39,8 @@ class Twiddles(object):
             else:
                 cc, ss, sq = h.re, h.re, Fraction(1, 2)
             c.axioms.append(SymBool.cmp('<', -h.re))
-            c.axioms.append(SymBool.cmp('==', h.re * h.re - _q(sq)))
+            c.axioms.append(SymBool('cmp', '==', Q(P.get_var("tw%d_h" % M) * P.get_var("tw%d_h" % M) - P.Poly.const(sq))))
+            P.declare_quadratic("tw%d_h" % M, sq)
             self.g = Sym(cc, -ss, True)
             return
         cs = Sym(Q.var("tw%d_c" % M, kind='twiddle'))
